@@ -254,7 +254,7 @@ def _more_builders():
     r = self.P.rip(); r.command = self.i('ripcmd', 8); r.version = self.i('ripver', 8); ents = []
     for k in range(nent):
       e = m.RIPEntry(address_family=self.i('af', 16), route_tag=self.i('tag', 16), ip=self.ip('rip'), netmask=self.ip('rmask'), next_hop=self.ip('rnh'),
-                     metric=self.i('metric', 31))
+                     metric=self.i('metric', 32))
       ents.append(e)
     r.entries = ents
     return L(r, dict(command=r.command, version=r.version, entries=[(e.address_family, e.route_tag, e.ip, e.netmask, e.next_hop, e.metric) for e in ents]), 4 + 20 * nent)
